@@ -115,3 +115,80 @@ def plain_methods(ctx, rel, cname):
     import ast
     c = ctx.repo.cls(rel, cname)
     return [n.name for n in c.body if isinstance(n, ast.FunctionDef) and not n.decorator_list]
+
+
+ALLOWED_DECORATORS = {'property', 'staticmethod', 'classmethod'}
+
+
+def integrity(ctx, rels):
+    """Name-resolution and definition integrity of the anchor modules: what the term comparison takes for granted.
+    - no renaming import of a repo name (from m import a as b), no local definition shadowing an imported repo name
+    - only @property/@x.setter style decorators (a caching or wrapping decorator would change what a definition means)
+    - no module-level statement that rebinds an attribute of a class or function (monkey patching) or deletes a name
+    - every method/function name is defined once per scope, except property getter/setter pairs
+    """
+    import ast
+    ctx.rule('integrity of definitions and imports')
+    for rel in rels:
+        m = ctx.repo.module(rel)
+        bad = []
+        for node in m.tree.body:
+            if isinstance(node, ast.ImportFrom):
+                mod = node.module or ''
+                for a in node.names:
+                    if a.asname and a.asname != a.name and (mod.startswith('crysp') or node.level):
+                        bad.append('line %d: "import %s as %s" renames a library name' % (node.lineno, a.name, a.asname))
+            elif isinstance(node, ast.Import):
+                for a in node.names:
+                    if a.asname and a.name.startswith('crysp'):
+                        bad.append('line %d: "import %s as %s"' % (node.lineno, a.name, a.asname))
+            elif isinstance(node, (ast.Assign, ast.AugAssign, ast.Delete)):
+                tg = node.targets if isinstance(node, (ast.Assign, ast.Delete)) else [node.target]
+                for t in tg:
+                    root = t
+                    while isinstance(root, (ast.Attribute, ast.Subscript)):
+                        root = root.value
+                    if isinstance(t, ast.Attribute) and isinstance(root, ast.Name) and (root.id in m.classes or root.id in m.functions or root.id in m.imports):
+                        bad.append('line %d: module-level assignment to %s.%s (monkey patching)' % (node.lineno, root.id, t.attr))
+                    if isinstance(node, ast.Delete):
+                        bad.append('line %d: module-level del' % node.lineno)
+            elif isinstance(node, ast.Expr) and isinstance(node.value, ast.Call):
+                f = node.value.func
+                nm = f.id if isinstance(f, ast.Name) else (f.attr if isinstance(f, ast.Attribute) else '')
+                if nm in ('setattr', 'delattr', 'exec', 'eval'):
+                    bad.append('line %d: module-level %s()' % (node.lineno, nm))
+        local = set(m.functions) | set(m.classes) | set(m.assigns)
+        for name in sorted(n for n in local if '.' not in n):
+            srcs = []
+            if name in m.imports:
+                mod, orig = m.imports[name]
+                if mod.startswith('crysp') and orig is not None:
+                    srcs.append(mod)
+            for s_ in m.stars:
+                tgt = ctx.repo.byname.get(s_)
+                if tgt is not None and name in tgt.public_names() and name not in ('struct',):
+                    srcs.append(s_)
+            if srcs and not (name == '__all__'):
+                bad.append('%s is defined here and also imported from %s (shadowing)' % (name, ', '.join(srcs)))
+        # decorators and duplicate definitions
+        scopes = [('', m.tree.body)] + [(c.name + '.', c.body) for c in m.tree.body if isinstance(c, ast.ClassDef)]
+        for prefix, body in scopes:
+            seen = {}
+            for n in body:
+                if isinstance(n, ast.FunctionDef):
+                    kinds = []
+                    for d in n.decorator_list:
+                        if isinstance(d, ast.Name) and d.id in ALLOWED_DECORATORS:
+                            kinds.append(d.id)
+                        elif isinstance(d, ast.Attribute) and d.attr in ('setter', 'deleter', 'getter') and isinstance(d.value, ast.Name):
+                            kinds.append(d.attr)
+                        else:
+                            bad.append('line %d: decorator on %s%s changes what the definition means' % (n.lineno, prefix, n.name))
+                    key = n.name
+                    if key in seen and not (('property' in seen[key] or 'setter' in seen[key] or 'deleter' in seen[key]) and kinds):
+                        bad.append('line %d: %s%s is defined twice (the later definition wins)' % (n.lineno, prefix, n.name))
+                    seen.setdefault(key, []).extend(kinds or ['plain'])
+                elif isinstance(n, ast.ClassDef) and prefix == '':
+                    if n.decorator_list or n.keywords:
+                        bad.append('line %d: class %s has decorators/metaclass keywords' % (n.lineno, n.name))
+        ctx.check('%s definitions and imports' % rel, not bad, '; '.join(bad[:6]), rel)
